@@ -13,6 +13,46 @@ func init() {
 	vRegister("ZZ_C05_Sync", ZZ_C05_Sync)
 	vRegister("ZZ_C0405_Par", ZZ_C0405_Par)
 	vRegister("ZZ_C05_Pending", ZZ_C05_Pending)
+	vRegister("ZZ_C05_WheelPending", ZZ_C05_WheelPending)
+}
+
+// ZZ_C05_WheelPending: an expiring cache with a queueing (asynchronous) executor under a manual clock: Set(1), then
+// `steps` operations from {Set, Invalidate, GetIfPresent, ComputeWrite, CleanUp} on keys {1,2} at clock offsets {0, 2 s}
+// (2 s = the write-reset lifetime), so that several write events of one key are pending when maintenance replays them
+// and some nodes are already scheduled in the timer wheel; then the queue and CleanUp run and the quiescent audit
+// (timer-wheel membership included) is taken. Everything is concrete except the weights of a weighted configuration.
+func ZZ_C05_WheelPending() {
+	cfg := zzCfgFromParams()
+	var ws [8]uint32
+	if cfg.bound == 2 {
+		for i := range ws {
+			ws[i] = vU32("w")
+		}
+		cfg.weigher = func(k, v int) uint32 { return ws[(v-100)&7] }
+	}
+	s := zzNewSeqD(cfg, "c05w", true)
+	s.env.clk.now = 1 << 32
+	s.step(zzOpSet, 1, "c05w")
+	sc := "Set;"
+	ops := []int{zzOpSet, zzOpInvalidate, zzOpGetIfPresent, zzOpComputeWrite, zzOpCleanUp}
+	offs := []int64{0, 2_000_000_000}
+	for i := 0; i < vParam("steps"); i++ {
+		s.env.clk.now += offs[vChoice("dt", len(offs))]
+		op := ops[vChoice("op", len(ops))]
+		k := 1
+		if op != zzOpCleanUp {
+			k = 1 + vChoice("key", 2)
+		}
+		sc += zzOpNames[op] + ";"
+		vScenario(sc)
+		s.step(op, k, "c05w")
+		s.observe("c05w")
+	}
+	s.env.ex.Run()
+	s.env.c.CleanUp()
+	s.env.ex.Run()
+	s.syncEvents("c05w.drain")
+	zzQuiescentAudit(s.env.c, "c05w", false, true)
 }
 
 // ZZ_C05_Pending: sequential, deferred (asynchronous) executor, no expiry: several writes are recorded before
@@ -55,7 +95,19 @@ func zzQuiescentAudit(c *Cache[int, int], tag string, wantC04, wantC05 bool) {
 	if !wantC05 {
 		return
 	}
-	vAssert(c.EstimatedSize() == len(allKeys), tag+".estimated_size_equals_iteration_count")
+	// entries that expired inside the current timer tick are still physically in the table (C13 gives them one
+	// tick); EstimatedSize counts them, iteration does not
+	expiredUnswept := 0
+	if impl.withExpiration {
+		now := impl.clock.NowNano()
+		impl.hashmap.Range(func(n node.Node[int, int]) bool {
+			if n.HasExpired(now) {
+				expiredUnswept++
+			}
+			return true
+		})
+	}
+	vAssert(c.EstimatedSize() == len(allKeys)+expiredUnswept, tag+".estimated_size_equals_iteration_count")
 	inAll := map[int]int{}
 	for _, k := range allKeys {
 		inAll[k]++
@@ -77,6 +129,26 @@ func zzQuiescentAudit(c *Cache[int, int], tag string, wantC04, wantC05 bool) {
 		for k := range inAll {
 			vAssert(seen[k] == 1, tag+".ordering_enumerates_every_present_entry")
 		}
+	}
+	// expiration policy: the timer wheel schedules exactly the nodes of the table, each once, and nothing that was removed
+	if impl.withExpiration {
+		inWheel := map[int]int{}
+		impl.expirationPolicy.ZZWalk(func(level, slot int, n node.Node[int, int]) {
+			inWheel[n.Key()]++
+			vAssert(n.IsAlive(), tag+".wheel.no_removed_entry_is_still_scheduled")
+			hn := impl.hashmap.Get(n.Key())
+			vAssert(hn != nil && hn.AsPointer() == n.AsPointer(), tag+".wheel.scheduled_node_is_the_table's_node")
+		})
+		nTable := 0
+		impl.hashmap.Range(func(n node.Node[int, int]) bool {
+			nTable++
+			vAssert(inWheel[n.Key()] == 1, tag+".wheel.every_table_entry_is_scheduled_once")
+			return true
+		})
+		vAssert(len(inWheel) == nTable, tag+".wheel.schedules_nothing_but_table_entries")
+	}
+	if !impl.withEviction {
+		return
 	}
 	// structure: every alive node of the table is linked in exactly the deque its queue type names; the deques
 	// hold nothing else; the three counters equal their sums
